@@ -778,7 +778,155 @@ theorem globals_1 : globals 1 = bytesV (Model.Field.minusOneEncoding fiatP4) := 
 theorem ctxOk4 : CtxOk globals pointCtx4 encL :=
   ⟨encOk4, rfl, globals_0, globals_6, rfl, rfl, rfl, rfl⟩
 
+
+/-! ## 4. PART 2: the fully closed corollaries (no `Computes` hypothesis)
+
+  `G = globals` (the generated globals), any oracle `X` (the schedules call one external, number 10, whose result
+  must be a single value: `hX`), carrier `Limbs`, context `pointCtx4`.  Fuel: the fuel functions of section 1 at
+  `fuelFiat = 900` for every primitive. -/
+
+section Closed4
+variable {X : Oracle}
+
+/-- NewSM2Point, Double, Add, Set of `prog` compute the point operations of `pointCtx4`: no hypothesis -/
+theorem pointFns4 : PointFns globals X pointCtx4 encL (fuelNew fuelFiat) (fuelPtDouble fuelFiat fuelFiat fuelFiat fuelFiat)
+    (fuelPtAdd fuelFiat fuelFiat fuelFiat fuelFiat) fuelSet :=
+  pointFns_of_primsW (C := pointCtx4) fiatPrimsW4 ctxOk4
+
+/-- **ScalarMult of `prog` = `Model.Curve.scalarMult` over the generated Fiat functions** (`pointCtx4`), for every
+    point on `Limbs` and every scalar of fewer than 2^63 bytes; fully closed -/
+theorem ir_scalarMult_eq_model_fiat (Pt : Model.Point.Pt Limbs) (scalar : Bytes) (hlen : scalar.length < 2 ^ 63) :
+    match Model.Curve.scalarMult (pointOps pointCtx4) Pt scalar with
+    | .ok r => ∀ f, fuelScalarMult scalar.length fuelFiat fuelFiat fuelFiat fuelFiat fuelFiat ≤ f →
+        runV prog globals X f f_internal_ScalarMult [ptV encL Pt, bytesV scalar] = .ret [ptV encL r, .int 0]
+    | .panic =>
+        (∃ F, ∀ f, F ≤ f → runV prog globals X f f_internal_ScalarMult [ptV encL Pt, bytesV scalar] = .panic) ∨
+        (∀ f, runV prog globals X f f_internal_ScalarMult [ptV encL Pt, bytesV scalar] = .stuck)
+    | .err => False :=
+  ir_scalarMult_eq_model_closedW (C := pointCtx4) fiatPrimsW4 ctxOk4 Pt scalar hlen
+
+/-- **scalarBaseMult_SkipBitExtration of `prog` = `Model.Curve.scalarBaseMult` over the generated Fiat functions**,
+    any tables and scheme; what remains are the table / domain side conditions of `ir_scalarBaseMult_pointOps` and the
+    shape of the result of external 10 -/
+theorem ir_scalarBaseMult_eq_model_fiat {W : Nat} (k : Bytes) (first : List Table) (second : Table)
+    (window subTableCount iterations remainder : Nat)
+    (hW : W < 9223372036854775808)
+    (hT : ∀ tbl w, CTIRRefineComb.SelUsed ⟨k, first, second, window, subTableCount, iterations, remainder⟩ tbl w →
+      (tbl.getD 0 []).length = w → w ≤ W ∧ TableOk tbl false w)
+    (hX : ∃ v, X 10 [.int (k.length : Int), .int 32] = [v])
+    (hprod : window * subTableCount * iterations + remainder < 2 ^ 63)
+    (hlen : subTableCount ≤ first.length) (hsec : 1 ≤ remainder → second ≠ []) :
+    match Model.Curve.scalarBaseMult (pointOps pointCtx4) k first second window subTableCount iterations remainder with
+    | .ok r => ∀ f, fuelScalarBaseMult window subTableCount iterations W fuelFiat fuelFiat fuelFiat fuelFiat fuelFiat ≤ f →
+        runV prog globals X f f_internal_scalarBaseMult_SkipBitExtration
+          [bytesV k, .arr (first.map CTIRRefineComb.encT), CTIRRefineComb.encT second, .int (window : Int), .int (subTableCount : Int),
+            .int (iterations : Int), .int (remainder : Int)] = .ret [ptV encL r, .int 0]
+    | .err => ∀ f, 20 ≤ f →
+        runV prog globals X f f_internal_scalarBaseMult_SkipBitExtration
+          [bytesV k, .arr (first.map CTIRRefineComb.encT), CTIRRefineComb.encT second, .int (window : Int), .int (subTableCount : Int),
+            .int (iterations : Int), .int (remainder : Int)] = .ret [CTIRRefineComb.nilPointV, .int 1]
+    | .panic =>
+        (∃ F, ∀ f, F ≤ f → runV prog globals X f f_internal_scalarBaseMult_SkipBitExtration
+          [bytesV k, .arr (first.map CTIRRefineComb.encT), CTIRRefineComb.encT second, .int (window : Int), .int (subTableCount : Int),
+            .int (iterations : Int), .int (remainder : Int)] = .panic) ∨
+        (∀ f, runV prog globals X f f_internal_scalarBaseMult_SkipBitExtration
+          [bytesV k, .arr (first.map CTIRRefineComb.encT), CTIRRefineComb.encT second, .int (window : Int), .int (subTableCount : Int),
+            .int (iterations : Int), .int (remainder : Int)] = .stuck) :=
+  ir_scalarBaseMult_eq_model_closedW (C := pointCtx4) fiatPrimsW4 ctxOk4 k first second window subTableCount iterations
+    remainder hW hT hX hprod hlen hsec
+
+end Closed4
+
+/-! ### The table side conditions for the generated 6-3-14 tables -/
+
+/-- `RowsOk`, decided on the first `n` entries -/
+def rowsOkB (row : List (List Nat)) (n : Nat) : Bool :=
+  decide (n ≤ row.length) && (row.take n).all (fun r => decide (4 ≤ r.length))
+
+/-- `TableOk tbl false w`, decided -/
+def tableOkB (tbl : Table) (w : Nat) : Bool :=
+  decide (2 ≤ tbl.length) && rowsOkB (tbl.getD 0 []) w && rowsOkB (tbl.getD 1 []) w
+
+theorem rowsOk_of_B {row : List (List Nat)} {n : Nat} (h : rowsOkB row n = true) : RowsOk row n := by
+  simp only [rowsOkB, Bool.and_eq_true, decide_eq_true_eq, List.all_eq_true] at h
+  intro j hj
+  have hjl : j < row.length := by omega
+  refine ⟨row[j], List.getElem?_eq_getElem hjl, h.2 _ ?_⟩
+  rw [List.mem_take_iff_getElem]
+  exact ⟨j, by omega, rfl⟩
+
+theorem tableOk_of_B {tbl : Table} {w : Nat} (h : tableOkB tbl w = true) : TableOk tbl false w := by
+  simp only [tableOkB, Bool.and_eq_true, decide_eq_true_eq] at h
+  exact ⟨by simpa using h.1.1, rowsOk_of_B h.1.2, rowsOk_of_B h.2, fun h => by cases h⟩
+
+set_option maxRecDepth 100000 in
+theorem first_6_3_14_ok : Gen.SM2Tables.sm2Precomputed_6_3_14.all (fun t => tableOkB t 63) = true := by decide +kernel
+
+set_option maxRecDepth 100000 in
+theorem second_6_3_14_ok : tableOkB Gen.SM2Tables.sm2Precomputed_6_3_14_Remainder 15 = true := by decide +kernel
+
+set_option maxRecDepth 100000 in
+theorem first_6_3_14_length : Gen.SM2Tables.sm2Precomputed_6_3_14.length = 3 := by decide +kernel
+
+set_option maxRecDepth 100000 in
+theorem second_6_3_14_width : (Gen.SM2Tables.sm2Precomputed_6_3_14_Remainder.getD 0 []).length = 15 := by decide +kernel
+
+/-- **the fixed-base multiplication of the Go code** (`scalarBaseMult_SkipBitExtration` on the generated 6-3-14
+    tables, window 6, 3 sub-tables, 14 iterations, remainder 4) **= the model over the generated Fiat functions**;
+    the only hypothesis is that external 10 returns one value -/
+theorem ir_scalarBaseMult_6_3_14_fiat {X : Oracle} (k : Bytes) (hX : ∃ v, X 10 [.int (k.length : Int), .int 32] = [v]) :
+    match Model.Curve.scalarBaseMult (pointOps pointCtx4) k Gen.SM2Tables.sm2Precomputed_6_3_14
+        Gen.SM2Tables.sm2Precomputed_6_3_14_Remainder 6 3 14 4 with
+    | .ok r => ∀ f, fuelScalarBaseMult 6 3 14 63 fuelFiat fuelFiat fuelFiat fuelFiat fuelFiat ≤ f →
+        runV prog globals X f f_internal_scalarBaseMult_SkipBitExtration
+          [bytesV k, .arr (Gen.SM2Tables.sm2Precomputed_6_3_14.map CTIRRefineComb.encT),
+            CTIRRefineComb.encT Gen.SM2Tables.sm2Precomputed_6_3_14_Remainder, .int ((6 : Nat) : Int), .int ((3 : Nat) : Int),
+            .int ((14 : Nat) : Int), .int ((4 : Nat) : Int)] = .ret [ptV encL r, .int 0]
+    | .err => ∀ f, 20 ≤ f →
+        runV prog globals X f f_internal_scalarBaseMult_SkipBitExtration
+          [bytesV k, .arr (Gen.SM2Tables.sm2Precomputed_6_3_14.map CTIRRefineComb.encT),
+            CTIRRefineComb.encT Gen.SM2Tables.sm2Precomputed_6_3_14_Remainder, .int ((6 : Nat) : Int), .int ((3 : Nat) : Int),
+            .int ((14 : Nat) : Int), .int ((4 : Nat) : Int)] = .ret [CTIRRefineComb.nilPointV, .int 1]
+    | .panic =>
+        (∃ F, ∀ f, F ≤ f → runV prog globals X f f_internal_scalarBaseMult_SkipBitExtration
+          [bytesV k, .arr (Gen.SM2Tables.sm2Precomputed_6_3_14.map CTIRRefineComb.encT),
+            CTIRRefineComb.encT Gen.SM2Tables.sm2Precomputed_6_3_14_Remainder, .int ((6 : Nat) : Int), .int ((3 : Nat) : Int),
+            .int ((14 : Nat) : Int), .int ((4 : Nat) : Int)] = .panic) ∨
+        (∀ f, runV prog globals X f f_internal_scalarBaseMult_SkipBitExtration
+          [bytesV k, .arr (Gen.SM2Tables.sm2Precomputed_6_3_14.map CTIRRefineComb.encT),
+            CTIRRefineComb.encT Gen.SM2Tables.sm2Precomputed_6_3_14_Remainder, .int ((6 : Nat) : Int), .int ((3 : Nat) : Int),
+            .int ((14 : Nat) : Int), .int ((4 : Nat) : Int)] = .stuck) := by
+  refine ir_scalarBaseMult_eq_model_fiat (W := 63) k _ _ 6 3 14 4 (by decide) ?_ hX (by decide) ?_ ?_
+  · intro tbl w hu _
+    rcases hu with ⟨hm, hw⟩ | ⟨ht, hw⟩
+    · have hw' : w = 63 := hw
+      subst hw'
+      exact ⟨Nat.le_refl _, tableOk_of_B ((List.all_eq_true.mp first_6_3_14_ok) tbl hm)⟩
+    · have hw' : w = 15 := hw.trans second_6_3_14_width
+      have ht' : tbl = Gen.SM2Tables.sm2Precomputed_6_3_14_Remainder := ht
+      subst hw' ht'
+      exact ⟨by decide, tableOk_of_B second_6_3_14_ok⟩
+  · rw [first_6_3_14_length]; decide
+  · intro _ h
+    have := second_6_3_14_width
+    rw [h] at this
+    cases this
+
+/-- the two tables are globals 7 and 8 of the generated program -/
+theorem globals_7 : globals 7 = .arr (Gen.SM2Tables.sm2Precomputed_6_3_14.map CTIRRefineComb.encT) := rfl
+theorem globals_8 : globals 8 = CTIRRefineComb.encT Gen.SM2Tables.sm2Precomputed_6_3_14_Remainder := rfl
+
 #print axioms ir_scalarMult_eq_model_closed
 #print axioms ir_scalarBaseMult_eq_model_closed
+#print axioms ir_scalarMult_eq_model_closedW
+#print axioms ir_scalarBaseMult_eq_model_closedW
+#print axioms fiatPrimsW4
+#print axioms encOk4
+#print axioms bytesPrims4
+#print axioms setBytesPrims4
+#print axioms ctxOk4
+#print axioms ir_scalarMult_eq_model_fiat
+#print axioms ir_scalarBaseMult_eq_model_fiat
+#print axioms ir_scalarBaseMult_6_3_14_fiat
 
 end SMGo.Proofs.CTIRRefineClosed
